@@ -16,28 +16,14 @@ def parseMove? (s : String) : Option (Move SChange) :=
     | ["r", c] => (parseChange? c).map .recv
     | _ => none
 
-/-- Run the merge machine, collecting the answer of every `emit` move (`none` when not enabled). -/
-def mrunOut (st : MState String String) : List (Move SChange) → List String × MState String String
-  | [] => ([], st)
-  | .recv e :: ms => mrunOut (recv st e) ms
-  | .emit :: ms =>
-    match emit st with
-    | some (o, st') => let r := mrunOut st' ms; (showChange o :: r.1, r.2)
-    | none => let r := mrunOut st ms; ("none" :: r.1, r.2)
-
 def parseDMove? (s : String) : Option (Move String) :=
   if s = "e" then some .emit
   else match s.splitOn ":" with
     | ["r", c] => if c = "" then none else some (.recv c)
     | _ => none
 
-def drunOut (st : DState String) : List (Move String) → List String × DState String
-  | [] => ([], st)
-  | .recv e :: ms => drunOut (drecv st e) ms
-  | .emit :: ms =>
-    match demit st with
-    | some (o, st') => let r := drunOut st' ms; (o :: r.1, r.2)
-    | none => let r := drunOut st ms; ("none" :: r.1, r.2)
+def showOut (f : α → String) : Option α → String
+  | none => "none" | some o => f o
 
 def showOuts (xs : List String) : String := if xs.isEmpty then "-" else ";".intercalate xs
 
@@ -49,12 +35,12 @@ def handle? (toks : List String) : Option String :=
     pure (showOptChange (mergeChanges a b))
   | "mrun" :: ms => do
     let ms ← ms.mapM parseMove?
-    let r := mrunOut MState.init ms
-    pure (showOuts r.1 ++ "|" ++ showChanges r.2.pending)
+    let r := runOut MState.init ms
+    pure (showOuts (r.1.map (showOut showChange)) ++ "|" ++ showChanges r.2.pending)
   | "drun" :: ms => do
     let ms ← ms.mapM parseDMove?
-    let r := drunOut none ms
-    pure (showOuts r.1 ++ "|" ++ (match r.2 with | none => "-" | some m => m))
+    let r := drunOut (none : DState String) ms
+    pure (showOuts (r.1.map (showOut id)) ++ "|" ++ (match r.2 with | none => "-" | some m => m))
   | _ => none
 
 def handle (toks : List String) : String :=
